@@ -77,7 +77,8 @@ theorem c09_arm_finite (s : Stack) (ttl : Nat) (cb : Cb) (h : ttl ≠ TTL_FOREVE
   simp [armTtl, h, callLater, Loop.callLater]
 
 /-- ... the infinite TTL 0xFFFFFF arms none: such an entry never expires -/
-theorem c09_arm_forever (s : Stack) (cb : Cb) : s.armTtl TTL_FOREVER cb = (s, none) := by
+theorem c09_arm_forever (s : Stack) (cb : Cb) :
+    (s.armTtl TTL_FOREVER cb).2 = none ∧ (s.armTtl TTL_FOREVER cb).1.loop = s.loop ∧ (s.armTtl TTL_FOREVER cb).1.found = s.found := by
   simp [armTtl]
 
 /-- cancelling a handle removes it from the timer set AND from the ready queue (a fired but not yet run
